@@ -195,6 +195,14 @@ class Built:
         pform = self.case.get('pform') or {}
         for vid in (order or ids):
             _, cls, raw = by_id[vid]
+            domq = (self.case.get('domq') or {}).get(vid)
+            if domq is not None:
+                # let(T, domain=an(entity(z, conds))): the variable ranges over the solutions of a sub-query
+                z = 60 + vid
+                self.vars[z] = let(self.classes[cls], [self.decode(v) for v in raw], name=f"v{z}")
+                sub = an(entity(self.vars[z], *[self.cond(c) for c in domq]))
+                self.vars[vid] = let(self.classes[cls], domain=sub, name=f"v{vid}")
+                continue
             if vid in pform:
                 # predicate form: T(From(d), *positional, **keywords); values are constants, variables
                 # declared earlier, or nested predicate-form terms
@@ -217,6 +225,16 @@ class Built:
         raise ValueError(v)
 
     def term(self, t):
+        """Build the expression of a term; with `self.share_terms` the SAME expression object is returned for
+        structurally equal attribute/index/call terms (a user writing `val = x.v` and reusing `val`)."""
+        if getattr(self, 'share_terms', None) is not None and t[0] in ('attr', 'idx', 'call'):
+            key = repr(t)
+            if key not in self.share_terms:
+                self.share_terms[key] = self._term(t)
+            return self.share_terms[key]
+        return self._term(t)
+
+    def _term(self, t):
         k = t[0]
         if k == 'var':
             return self.vars[t[1]]
